@@ -28,7 +28,7 @@ THEOREMS = [
 TRUSTED = ["hand-written model Ebv.Serial of Serial.update and of one EL6002 channel, tied by exact per-cycle correspondence "
            "(toggle bits, out_string, delivered bytes, chunk read, chunks accepted/announced, current_transmit, unread pipe bytes)",
            "harness/vh/props/c28.py: stand-in sync group (current_data + pdo_assign only), Python EL6002 channel simulator following "
-           "the same oracle lists; real PacketVar/TerminalVar/EL6002.Channel descriptors, real os.pipe2 pipes, FIONREAD for the pipe level",
+           "the same oracle lists and working on the raw process-image bytes (hardware layout: length byte + 22 data bytes, HW_DATA); real PacketVar/TerminalVar/EL6002.Channel descriptors, real os.pipe2 pipes, FIONREAD for the pipe level",
            "23p size, os.read chunk size and init marker regenerated into Ebv.Generated.Consts by probing the real classes"]
 ASSUMPTIONS = ["the output image of the channel is zero when the device starts (a freshly assembled packet) and outputs persist from "
                "cycle to cycle (the slow group copies the returned frame over current_data)",
@@ -43,6 +43,23 @@ RULE = ("cases = channel (1|2) x initial status bits/in_string x init delay 0..5
         "writes of 1..100 bytes (split across 22-byte reads) x 20..140 cycles, followed by a drain phase (no writes, terminal without "
         "delays, one cycle per possible chunk + slack) after which everything written must have been accepted; "
         "non-trivial = chunks accepted and chunks delivered in the same run")
+
+# The EL6002 hardware (not /repo): per channel one status/control byte, then one length byte and 22 data bytes.
+# The simulator and the oracle use these raw bytes, never the struct format of the descriptors under test.
+HW_DATA = 22
+HW_STR = 1 + HW_DATA
+
+
+def hw_encode(chunk):
+    """what the terminal puts on the bus for a chunk: length byte, data, zero padding"""
+    chunk = bytes(chunk[:HW_DATA])
+    return bytes([len(chunk)]) + chunk + bytes(HW_DATA - len(chunk))
+
+
+def hw_decode(raw):
+    """what the terminal takes out of the 23 raw bytes the master sent"""
+    return bytes(raw[1:1 + min(raw[0], HW_DATA)])
+
 
 BITS_IN = ("transmit_accept", "receive_request", "init_accept")
 BITS_OUT = ("transmit_request", "receive_accept", "init_request")
@@ -70,9 +87,7 @@ class Image:
         for nm in BITS_IN + BITS_OUT + ("in_string", "out_string"):
             d = cls.__dict__[nm]
             self.pos[nm] = (base[d.sm] + d.position, d.size)
-        self.fmt = cls.__dict__["in_string"].size
-        assert self.fmt == cls.__dict__["out_string"].size
-        self.strsize = struct.calcsize(self.fmt)
+        self.strsize = HW_STR      # raw bytes of the hardware, whatever format the descriptors declare
 
     def bit(self, nm):
         p, b = self.pos[nm]
@@ -107,8 +122,7 @@ class Image:
 
 class Sim:
     """EL6002 channel, same rules as Ebv.Serial.Term.step"""
-    def __init__(self, case, fmt):
-        self.fmt = fmt
+    def __init__(self, case):
         self.phase = "idle"
         self.init_wait = case["initWait"]
         self.ta, self.seen_tr, self.wait, self.delays = case["ta0"], False, None, list(case["txDelays"])
@@ -146,7 +160,7 @@ class Sim:
                     self.ta = not self.ta
                     self.seen_tr = tr
                     self.wait = None
-                    accepted = struct.unpack(self.fmt, out_str)[0]
+                    accepted = hw_decode(out_str)
                 else:
                     self.wait -= 1
             # receive direction
@@ -155,10 +169,10 @@ class Sim:
             if not self.outstanding and self.plan:
                 if self.plan[0][0] == 0:
                     chunk = self.plan.pop(0)[1]
-                    self.in_str = struct.pack(self.fmt, chunk)
+                    self.in_str = hw_encode(chunk)
                     self.rr = not self.rr
                     self.outstanding = True
-                    announced = struct.unpack(self.fmt, self.in_str)[0]
+                    announced = hw_decode(self.in_str)
                 else:
                     self.plan[0][0] -= 1
         return accepted, announced
@@ -196,7 +210,7 @@ def run_impl(case):
     for nm in BITS_OUT:
         img.setbit(nm, False)
     img.setraw("out_string", bytes(img.strsize))
-    sim = Sim(case, img.fmt)
+    sim = Sim(case)
     dev = Serial(chan)
     fds = [dev.in_read, dev.in_write, dev.out_read, dev.out_write]
     obs = []
@@ -268,10 +282,8 @@ def show(case, obs):
 # ---------------------------------------------------------------- property oracle
 def oracle(ctx, case, obs):
     """the property text on what terminal and application see; nothing here comes from the model"""
-    from ebpfcat.terminals import EL6002
-    fmt = EL6002.__dict__["channel1"].struct.__dict__["out_string"].size     # "23p": the channel holds 22 bytes
     view = show(case, obs)
-    cap = struct.calcsize(fmt) - 1
+    cap = HW_DATA
     written = b""          # everything the application wrote so far
     taken = 0              # bytes the device took out of the transmit pipe
     acc = []               # chunks the terminal accepted
@@ -313,7 +325,7 @@ def oracle(ctx, case, obs):
         ok &= req(joined == written[:len(joined)], "bytes accepted by the terminal are not the bytes the application wrote, "
                   "once each and in order", "tx-stream")
         ok &= req(len(acc) <= tr_toggles <= len(acc) + 1, "not exactly one toggle of transmit_request per chunk", "tx-toggle")
-        in_flight = struct.unpack(fmt, o["out_str"])[0] if tr_toggles == len(acc) + 1 else b""
+        in_flight = hw_decode(o["out_str"]) if tr_toggles == len(acc) + 1 else b""
         ok &= req(written[:taken] == joined + in_flight, "bytes taken from the transmit pipe are neither accepted nor held in out_string",
                   "tx-lost")
         # ---- receive direction
@@ -371,19 +383,19 @@ def gen(rng, maxcycles):
     if kind in ("both", "both-busy", "rx"):
         for _ in range(rng.randrange(1, n // 2 + 2)):
             r = rng.random()
-            ln = 0 if r < 0.12 else 22 if r < 0.3 else rng.randrange(23, 31) if r < 0.33 else rng.randrange(1, 23)
+            ln = 0 if r < 0.12 else 22 if r < 0.3 else rng.randrange(23, 31) if r < 0.33 else 21 if r < 0.4 else rng.randrange(1, 23)
             d = 0 if kind == "both-busy" and rng.random() < 0.7 else rng.randrange(0, 6)
-            plan.append([d, bytes(rng.randrange(256) for _ in range(ln)).hex()])
+            plan.append([d, bytes(rng.randrange(1, 256) for _ in range(ln)).hex()])
     writes = []
     p = {"both": 0.25, "both-busy": 0.6, "tx": 0.3, "rx": 0.0, "idle": 0.0}[kind]
     total = 0
     for _ in range(n):
         if rng.random() < p and total < 30000:
             r = rng.random()
-            ln = (1 if r < 0.1 else 22 if r < 0.2 else 23 if r < 0.25 else 44 if r < 0.3 else 100 if r < 0.35
+            ln = (1 if r < 0.07 else 21 if r < 0.12 else 22 if r < 0.2 else 23 if r < 0.25 else 44 if r < 0.3 else 100 if r < 0.35
                   else rng.randrange(1, 22) if r < 0.65 else rng.randrange(1, 101))
             total += ln
-            writes.append(bytes(rng.randrange(256) for _ in range(ln)).hex())
+            writes.append(bytes(rng.randrange(1, 256) for _ in range(ln)).hex())
         else:
             writes.append("")
     in0 = bytes([rng.choice([0, 3, 22, 23, 255, rng.randrange(256)])] + [rng.randrange(256) for _ in range(22)])
@@ -397,7 +409,7 @@ def gen(rng, maxcycles):
 
 def handmade():
     """full and empty chunks back to back, zero delays, both directions at once from the first ready cycle"""
-    full = bytes(range(22)).hex()
+    full = bytes(range(1, 23)).hex()
     base = {"kind": "hand", "chan": 1, "ta0": False, "rr0": False, "in0": bytes(23).hex(), "initWait": 0,
             "fill": 1, "size": 160, "layout": [2, 60]}
     for c in (
